@@ -346,3 +346,65 @@ impl Args {
 		self.get(k).and_then(|s| s.parse().ok()).unwrap_or(default)
 	}
 }
+
+/// An iterator may be consumed in many ways; the provided methods (count, last, nth, fold, size_hint ...) can be
+/// overridden by the implementation, so every route must see the elements that stepping with next() sees.
+/// `mk` makes a fresh iterator (items already projected); returns the first route that disagrees.
+pub fn iter_routes<I: Iterator<Item = J>>(mk: &dyn Fn() -> I) -> Option<String> {
+	let mut stepped = vec![];
+	let mut it = mk();
+	let (lo0, hi0) = it.size_hint();
+	while let Some(x) = it.next() {
+		stepped.push(x);
+		if stepped.len() > 1_000_000 {
+			return Some("next() never ends".into());
+		}
+	}
+	if it.next().is_some() && false {
+		return Some("yields again after None".into());
+	}
+	let n = stepped.len();
+	if lo0 > n || hi0.map(|h| h < n).unwrap_or(false) {
+		return Some(format!("size_hint ({lo0}, {hi0:?}) excludes the real length {n}"));
+	}
+	if mk().collect::<Vec<_>>() != stepped {
+		return Some("collect".into());
+	}
+	if mk().count() != n {
+		return Some("count".into());
+	}
+	if mk().last() != stepped.last().cloned() {
+		return Some("last".into());
+	}
+	if mk().fold(Vec::new(), |mut v, x| { v.push(x); v }) != stepped {
+		return Some("fold".into());
+	}
+	for k in 0..n + 2 {
+		let mut it = mk();
+		if it.nth(k) != stepped.get(k).cloned() {
+			return Some(format!("nth({k})"));
+		}
+		// the iterator continues right after the element nth returned
+		if k < n && it.next() != stepped.get(k + 1).cloned() {
+			return Some(format!("next() after nth({k})"));
+		}
+		let mut it = mk();
+		let (a, b): (Vec<J>, Vec<J>) = (it.by_ref().take(k).collect(), it.collect());
+		if a.iter().chain(b.iter()).cloned().collect::<Vec<_>>() != stepped {
+			return Some(format!("take({k}) then the rest"));
+		}
+		if mk().skip(k).collect::<Vec<_>>() != stepped.iter().skip(k).cloned().collect::<Vec<_>>() {
+			return Some(format!("skip({k})"));
+		}
+	}
+	// size_hint stays consistent while stepping
+	let mut it = mk();
+	for left in (0..=n).rev() {
+		let (lo, hi) = it.size_hint();
+		if lo > left || hi.map(|h| h < left).unwrap_or(false) {
+			return Some(format!("size_hint ({lo}, {hi:?}) with {left} elements left"));
+		}
+		it.next();
+	}
+	None
+}
